@@ -86,7 +86,7 @@ def absState (c : Nat) (st : MState) : Spec.AbsMsg := { cls := c, fields := nvs 
 /-- the same abstraction on the spec side (identity on everything the spec decoder builds
     from wire bytes except float32 signalling NaNs; it matters for the `Cls()` default of a
     message-typed map value, whose optional slots are `None`) -/
-def Spec.AbsMsg.nrm (m : Spec.AbsMsg) : Spec.AbsMsg := { m with fields := nvs m.fields }
+def _root_.Bp.Spec.AbsMsg.nrm (m : Spec.AbsMsg) : Spec.AbsMsg := { m with fields := nvs m.fields }
 
 /-! ### float32 quieting -/
 
